@@ -15,10 +15,17 @@ COQ_FILES = ["C04/Model.v", "C04/Spec.v", "C04/Check.v", "C04/Lists.v", "C04/Ari
 TRUSTED = [
     "object histories: the harness runs the real InterleavedSampler objects through construction / iteration "
     "histories on shared main-sampler and config objects (re-iteration, abandoned iterations, other schedulers on "
-    "the same objects, foreign set_epoch calls) and compares every iteration with the model of a fresh "
-    "configuration; concurrently live iterations of schedulers sharing sampler objects are not exercised",
+    "the same objects, foreign set_epoch calls, SIMULTANEOUSLY LIVE iterators over one object / over objects sharing "
+    "their samplers, advanced alternately) and compares every iteration with the model of a fresh configuration "
+    "(theorem iterations_independent: an iteration is a function of the configuration and what the samplers yield, "
+    "it owns its counters); the Coq correspondence covers the final iteration, the earlier / live ones are compared "
+    "with the independent Python spec",
     "recording samplers log set_epoch and __iter__ calls; lazy (generator) and eager (order fixed in __iter__) "
-    "flavours and torch's DistributedSampler(shuffle=True, num_replicas=1) as main sampler",
+    "flavours, torch's DistributedSampler(shuffle=True, num_replicas=1), and the package's own rank-aware samplers "
+    "(DistributedSampler / WeightedSampler / ClassBalancedSampler / SemiSampler built for one rank of world_size "
+    "1..3) as main and side samplers: their iteration is taken as given (reference = a second instance), only "
+    "len(sampler) and the iteration may drive the scheduler; recording mocks carry misleading extra attributes "
+    "(effective_length, total_size, num_samples, a second dataset attribute)",
     "hand-written model coq/C04/Model.v of InterleavedSampler (__init__ with all assertions, checkpoint derivation, "
     "index_offsets, __iter__, _eval_loop, _training_loop incl. its batch-size adjustment branches, batch sampler, "
     "concat-dataset lookup, collator dispatch); tied to /repo by this run's correspondence evaluation",
@@ -39,10 +46,89 @@ TRUSTED = [
 _TORCH_REF = {}
 
 
+_KD_REF = {}
+KD_CLASSES = ("distributed", "weighted", "classbalanced", "semi")
+
+
+def kd_classes(spec, n):
+    """class labels of the dataset a ClassBalancedSampler / SemiSampler is built on (None: the sampler needs none)"""
+    if spec["cls"] == "classbalanced":
+        return [i % spec.get("C", 2) for i in range(n)]
+    if spec["cls"] == "semi":
+        return [-1 if i % 2 else (i // 2) % 2 for i in range(n)]
+    return None
+
+
+def kd_make(spec, ds, base=None):
+    """one of the package's OWN rank-aware samplers, built for rank spec['rank'] of spec['world'] processes
+    (explicit rank / world_size arguments; no process group is needed).  len(sampler) and the iteration are the
+    per-rank share; `effective_length` (and total_size of the DistributedSampler) describe all ranks together."""
+    import torch
+    import kappadata.samplers as S
+    w, r, seed = spec["world"], spec["rank"], spec.get("seed", 0)
+    k = spec["cls"]
+    cls = {"distributed": S.DistributedSampler, "weighted": S.WeightedSampler,
+           "classbalanced": S.ClassBalancedSampler, "semi": S.SemiSampler}[k]
+    cls = base(cls) if base is not None else cls
+    if k == "distributed":
+        return cls(ds, num_replicas=w, rank=r, shuffle=bool(spec.get("shuffle", True)), seed=seed)
+    if k == "weighted":
+        wts = torch.tensor([1.0 + (i % 3) for i in range(len(ds))])
+        return cls(ds, weights=wts, size=spec.get("size"), seed=seed, rank=r, world_size=w)
+    if k == "classbalanced":
+        return cls(ds, shuffle=bool(spec.get("shuffle", True)), samples_per_class=spec.get("spc"), seed=seed,
+                   rank=r, world_size=w)
+    return cls(ds, num_labeled=spec.get("nl", 1), num_unlabeled=spec.get("nu", 1), rank=r, world_size=w, seed=seed,
+               length_mode=spec.get("mode", "all"))
+
+
+def kd_ref(spec, ds_n):
+    """reference instance (a second object, never handed to the scheduler) -> (sampler, {epoch: order})"""
+    key = (repr(sorted(spec.items())), ds_n)
+    if key not in _KD_REF:
+        if len(_KD_REF) > 256:
+            _KD_REF.clear()
+        _KD_REF[key] = (kd_make(spec, _DS(0, ds_n, kd_classes(spec, ds_n))), {})
+    return _KD_REF[key]
+
+
+def kd_order(spec, ds_n, e):
+    ref, cache = kd_ref(spec, ds_n)
+    e = 0 if e is None else e
+    if e not in cache:
+        ref.set_epoch(e)
+        cache[e] = [int(i) for i in ref]
+    return list(cache[e])
+
+
+def gen_kd_spec(rng, ds_n):
+    """a rank-aware kappadata sampler over a dataset of ds_n items; world sizes 1..3, every rank"""
+    w = rng.choice([1, 2, 2, 2, 3, 3])
+    spec = {"cls": rng.choice(KD_CLASSES), "world": w, "rank": rng.randrange(w), "seed": rng.choice([0, 0, 3, 11])}
+    if spec["cls"] == "weighted" and ds_n >= 2 and rng.random() < 0.4:
+        spec["size"] = rng.randint(1, ds_n)
+    if spec["cls"] == "classbalanced":
+        spec["C"] = rng.choice([2, 3])
+        spec["spc"] = rng.choice([None, None, 1, 2, 5])
+    if spec["cls"] == "semi":
+        spec["mode"] = rng.choice(["all", "labeled", "unlabeled"])
+    return spec
+
+
+def kd_valid(spec, ds_n):
+    if spec["cls"] == "classbalanced":
+        return ds_n >= spec.get("C", 2)
+    if spec["cls"] == "semi":
+        return ds_n >= 2
+    return ds_n >= 1
+
+
 def main_iter(case, e):
     """what the main sampler object yields when it is iterated while holding epoch e (None = it was never told
     an epoch)"""
     n, ds = case["N"], case["dsN"]
+    if case.get("main_kind") == "kd":
+        return kd_order(case["kd"], ds, e)
     if case.get("main_kind") == "torch":
         # torch's own DistributedSampler(shuffle=True): the reference order comes from a second instance
         key = (ds, case["perm_seed"])
@@ -95,7 +181,7 @@ def budgets(case):
     return out
 
 
-def gen_case(rng, big=False, size=None):
+def gen_case(rng, big=False, size=None, kd=None):
     size = size or ("mid" if big else "small")
     if size == "small":
         n = rng.choice([1, 2, 3, 4, 5, 6, 7, 8, 9, 10, 12, 13, 16, 17, 20, 24, 31, 40])
@@ -103,6 +189,18 @@ def gen_case(rng, big=False, size=None):
         n = rng.randint(1, 79)
     else:
         n = rng.randint(80, 300)
+    # the main sampler is one of the package's own rank-aware samplers (one rank of world_size 1..3): the dataset
+    # size is drawn, len(sampler) = the per-rank share follows
+    kd = (rng.random() < 0.12) if kd is None else kd
+    kd_spec = None
+    if kd:
+        for _ in range(20):
+            ds_n = max(2, n * rng.choice([1, 1, 2, 2, 3]) + rng.choice([0, 0, 1]))
+            sp = gen_kd_spec(rng, ds_n)
+            if kd_valid(sp, ds_n) and len(kd_ref(sp, ds_n)[0]) >= 1:
+                kd_spec, kd_ds = sp, ds_n
+                n = len(kd_ref(sp, ds_n)[0])
+                break
     b = rng.choice([1, n, max(1, n // 2), rng.randint(1, n), rng.randint(1, n)])
     if size == "large" and b < n // 40:
         b = rng.randint(max(1, n // 40), n)
@@ -113,6 +211,8 @@ def gen_case(rng, big=False, size=None):
         d = b * rng.choice(mult)
     case = {"N": n, "dsN": n + rng.choice([0, 0, 0, 1, 3]), "B": b, "drop_last": drop_last, "D": d}
     case["perm_seed"] = rng.choice([None, rng.randint(0, 999)])
+    if kd_spec is not None:
+        case["kd"], case["dsN"] = kd_spec, kd_ds
     spe, upe = geometry(case)
     kind = rng.choice(["epochs", "updates", "samples"])
     total_epochs = rng.choice([1, 1, 2, 2, 3, 4] if size != "large" else [1, 1, 2, 2, 3])
@@ -144,6 +244,24 @@ def gen_case(rng, big=False, size=None):
         sc["idx"] = list(range(ln)) if rng.random() < 0.7 else [rng.randrange(max(dsl, 1)) for _ in range(ln)] if dsl else []
         # a stateful side sampler: another order on every iteration (like RandomSampler / set_epoch-driven shuffling)
         sc["shuffle"] = rng.randint(0, 999) if (ln >= 2 and rng.random() < 0.4) else None
+        r = rng.random()
+        if r < 0.10 and dsl >= 2:
+            # one of the package's own rank-aware samplers as side sampler (one rank of several)
+            sp = gen_kd_spec(rng, dsl)
+            if kd_valid(sp, dsl):
+                sc["kd"], sc["shuffle"] = sp, None
+                sc["idx"] = kd_order(sp, dsl, 0)
+        elif r < 0.22:
+            # the config draws from a dataset OBJECT another config (or the main sampler) draws from as well
+            owners = [k for k, o in enumerate(sides) if o.get("share") is None and o.get("kd") is None]
+            tgt = rng.choice(["main"] + owners + owners)
+            tl = case["dsN"] if tgt == "main" else sides[tgt]["dslen"]
+            sc["share"], sc["dslen"] = tgt, tl
+            sc["idx"] = [rng.randrange(tl) for _ in range(ln)] if tl else []
+            if len(sc["idx"]) < 2:
+                sc["shuffle"] = None
+        if sc.get("kd") is None and rng.random() < 0.3:
+            sc["decoy"] = gen_decoy(rng, len(sc["idx"]))
         sides.append(sc)
     case["sides"] = sides
     # start checkpoint
@@ -174,6 +292,23 @@ def gen_case(rng, big=False, size=None):
     return case
 
 
+def set_dsn(case, ds):
+    """another size of the main sampler's dataset; configs drawing from that dataset object follow"""
+    case["dsN"] = ds
+    for sc in case["sides"]:
+        if sc.get("share") == "main":
+            sc["dslen"] = ds
+            sc["idx"] = [i % ds for i in sc["idx"]]
+
+
+def gen_decoy(rng, n):
+    """extra attributes of a recording mock that describe something else than the per-process iteration (the size
+    over all ranks, a padded size, another dataset): the scheduler has to go by len(sampler) and the iteration"""
+    vals = [0, 1, n + 1, 2 * n, 2 * n + 1, 3 * n, max(0, n - 1), max(1, n // 2)]
+    keys = rng.sample(["effective_length", "total_size", "num_samples", "dataset"], rng.choice([1, 1, 2, 4]))
+    return {k: rng.choice(vals) for k in keys}
+
+
 # ---- sampler flavours and object histories -------------------------------------------------------
 def add_flavours(rng, case):
     """the main / side sampler objects come as lazy generators (the epoch / order is read when the first index is
@@ -183,8 +318,13 @@ def add_flavours(rng, case):
     r = rng.random()
     case["main_kind"] = "lazy" if r < 0.45 else "eager" if r < 0.95 else "torch"
     case["pre_epoch"] = rng.choice([None, None, 0, 1, 2, 5, 9])
+    if case.get("kd") is not None:
+        case["main_kind"] = "kd"
+        case["pre_epoch"] = case["pre_epoch"] or 0
+    elif rng.random() < 0.3:
+        case["main_decoy"] = gen_decoy(rng, case["N"])
     if case["main_kind"] == "torch":
-        case["dsN"] = case["N"]          # num_replicas=1: len(sampler) = len(dataset)
+        set_dsn(case, case["N"])         # num_replicas=1: len(sampler) = len(dataset)
         if case["perm_seed"] is None:
             case["perm_seed"] = rng.randint(0, 999)
         case["pre_epoch"] = case["pre_epoch"] or 0
@@ -226,7 +366,27 @@ def gen_other(rng, case):
     return {"B": n, "drop_last": True, "D": None, "start": None, "sel": None, "budget": ["epochs", 1]}
 
 
-def add_history(rng, case):
+def gen_overlap(rng, case):
+    """simultaneously live iterations (a mid-training `next(iter(loader))` peek, a second consumer of the same
+    sampler object): 2-3 iterators, most of them over ONE InterleavedSampler object, advanced alternately by a
+    few items / about an epoch at a time; one of them is often run to its end"""
+    nobj = len(case.get("others") or []) + 1
+    j = rng.choice([0, 0, 0] + list(range(nobj)))
+    objs = [j, j] + ([rng.randrange(nobj)] if rng.random() < 0.3 else [])
+    rng.shuffle(objs)
+    oc = obj_case(case, j)
+    spe, _ = geometry(oc)
+    b = oc["B"]
+    pulls = []
+    for k in range(rng.randint(3, 7)):
+        li = rng.randrange(len(objs)) if k >= 2 else k
+        pulls.append([li, rng.choice([1, 1, 2, b, b + 1, spe, spe + 1, rng.randint(1, 2 * spe + 3)])])
+    if rng.random() < 0.6:
+        pulls.append([rng.randrange(len(objs)), None])
+    return ["overlap", objs, pulls]
+
+
+def add_history(rng, case, overlap=0.35):
     """objects have histories: the case's InterleavedSampler is iterated (completely, or abandoned after some
     items) before its observed iteration, other InterleavedSamplers are built on the same main sampler and config
     objects and iterated before / in between, somebody calls set_epoch on the main sampler"""
@@ -251,6 +411,8 @@ def add_history(rng, case):
             steps.append(["set_epoch", rng.choice([0, 1, 2, 3, 5, 11])])
     for j in unbuilt:
         steps.append(["build", j])
+    if rng.random() < overlap:
+        steps.append(gen_overlap(rng, case))
     if rng.random() < 0.25:
         steps.append(["set_epoch", rng.choice([0, 1, 2, 3, 5, 11])])
     steps.append(["iter", 0, None])
@@ -390,8 +552,11 @@ def gen_cases(rng, tier):
 
 def search_cases(rng, tier):
     for _ in range(20000):
-        if rng.random() < 0.3:
+        r = rng.random()
+        if r < 0.3:
             yield gen_history_case(rng)
+        elif r < 0.4:
+            yield gen_boundary_case(rng)
         else:
             yield gen_bounded(rng, size="mid" if rng.random() < 0.3 else "small")
 
@@ -444,11 +609,24 @@ def shrink(case):
                 yield {**c, "scenario": cand}
         for j in range(1, len(c.get("others") or []) + 1):
             # drop object j (and renumber the later ones)
-            cand = [[st[0], st[1] - 1 if (st[0] != "set_epoch" and st[1] > j) else st[1]] + st[2:]
-                    for st in sc if st[0] == "set_epoch" or st[1] != j]
+            if any(st[0] == "overlap" and j in st[1] for st in sc):
+                continue
+            cand = [[st[0], [x - 1 if x > j else x for x in st[1]]] + st[2:] if st[0] == "overlap" else
+                    [st[0], st[1] - 1 if (st[0] != "set_epoch" and st[1] > j) else st[1]] + st[2:]
+                    for st in sc if st[0] in ("set_epoch", "overlap") or st[1] != j]
             c2 = {**c, "others": c["others"][:j - 1] + c["others"][j:], "scenario": cand}
             if scenario_ok(c2):
                 yield c2
+        for i, st in enumerate(sc[:-1]):
+            if st[0] == "overlap":
+                # fewer pulls, fewer items per pull
+                for q in range(len(st[2])):
+                    yield {**c, "scenario": sc[:i] + [["overlap", st[1], st[2][:q] + st[2][q + 1:]]] + sc[i + 1:]}
+                for q, pl in enumerate(st[2]):
+                    for m in ([1, pl[1] // 2, pl[1] - 1] if pl[1] else [4, 16, 64]):
+                        if m >= 1 and m != pl[1]:
+                            yield {**c, "scenario": sc[:i] + [["overlap", st[1], st[2][:q] + [[pl[0], m]] + st[2][q + 1:]]]
+                                   + sc[i + 1:]}
         for i, st in enumerate(sc[:-1]):
             if st[0] == "iter" and st[2] is not None:
                 yield {**c, "scenario": sc[:i] + [["iter", st[1], None]] + sc[i + 1:]}
@@ -457,11 +635,15 @@ def shrink(case):
                 yield {**c, "others": c["others"][:j] + [{**o, "sel": None}] + c["others"][j + 1:]}
             if o.get("start") is not None:
                 yield {**c, "others": c["others"][:j] + [{**o, "start": None}] + c["others"][j + 1:]}
+    if c.get("main_decoy"):
+        yield {kk: v for kk, v in c.items() if kk != "main_decoy"}
+    if c.get("main_kind") == "kd" and c["kd"].get("seed"):
+        yield {**c, "kd": {**c["kd"], "seed": 0}}
     if c.get("main_kind") == "torch":
         yield {**c, "main_kind": "eager"}
     if c.get("main_kind") == "eager":
         yield {**c, "main_kind": "lazy"}
-    if c.get("pre_epoch") is not None and c.get("main_kind") != "torch":
+    if c.get("pre_epoch") is not None and c.get("main_kind") not in ("torch", "kd"):
         yield {**c, "pre_epoch": None}
     for i, sc_ in enumerate(c["sides"]):
         if sc_.get("eager"):
@@ -469,8 +651,25 @@ def shrink(case):
     for i in range(len(c["sides"])):
         if (c.get("mut") and c["mut"][0] == "sides") or any(o.get("sel") is not None for o in c.get("others") or []):
             break
-        yield {**c, "sides": c["sides"][:i] + c["sides"][i + 1:]}
+        if any(o.get("share") == i for o in c["sides"]):
+            continue
+        rest = [({**o, "share": o["share"] - 1} if isinstance(o.get("share"), int) and o["share"] > i else o)
+                for o in c["sides"][:i] + c["sides"][i + 1:]]
+        yield {**c, "sides": rest}
     for i, sc in enumerate(c["sides"]):
+        if sc.get("decoy"):
+            yield {**c, "sides": c["sides"][:i] + [{kk: v for kk, v in sc.items() if kk != "decoy"}] + c["sides"][i + 1:]}
+        if sc.get("kd") is not None:
+            yield {**c, "sides": c["sides"][:i] + [{kk: v for kk, v in sc.items() if kk != "kd"}] + c["sides"][i + 1:]}
+            continue
+        if sc.get("share") is not None or any(o.get("share") == i for o in c["sides"]):
+            # the dataset object stays as it is; fewer indices drawn from it
+            if len(sc["idx"]) > 1:
+                yield {**c, "sides": c["sides"][:i] + [{**sc, "idx": sc["idx"][:-1]}] + c["sides"][i + 1:]}
+            for k in ("ene", "enu", "ens", "bs"):
+                if sc[k] is not None and sum(sc[x] is not None for x in ("ene", "enu", "ens")) > (1 if k != "bs" else 0):
+                    yield {**c, "sides": c["sides"][:i] + [{**sc, k: None}] + c["sides"][i + 1:]}
+            continue
         for k in ("ene", "enu", "ens", "bs"):
             if sc[k] is not None and sum(sc[x] is not None for x in ("ene", "enu", "ens")) > (1 if k != "bs" else 0):
                 yield {**c, "sides": c["sides"][:i] + [{**sc, k: None}] + c["sides"][i + 1:]}
@@ -479,13 +678,14 @@ def shrink(case):
         if len(sc["idx"]) > 1:
             m = len(sc["idx"]) - 1
             yield {**c, "sides": c["sides"][:i] + [{**sc, "idx": list(range(m)), "dslen": m}] + c["sides"][i + 1:]}
-    if c["perm_seed"] is not None:
+    if c["perm_seed"] is not None and c.get("main_kind") != "kd":
         yield {**c, "perm_seed": None}
-    if c["dsN"] != c["N"]:
+    if c["dsN"] != c["N"] and c.get("main_kind") != "kd" and not any(o.get("share") == "main" for o in c["sides"]):
         yield {**c, "dsN": c["N"]}
     if c["D"] is not None and not c.get("mut"):
         yield {**c, "D": None}
-    if c["start"] is None and c["N"] > c["B"] and c["N"] > 1 and not c.get("mut"):
+    if (c["start"] is None and c["N"] > c["B"] and c["N"] > 1 and not c.get("mut") and c.get("main_kind") != "kd"
+            and not any(o.get("share") == "main" for o in c["sides"])):
         yield {**c, "N": c["N"] - 1, "dsN": c["N"] - 1}
     if c["budget"][1] > 1 and c["start"] is None and c.get("post_budget") is None:
         yield {**c, "budget": [c["budget"][0], c["budget"][1] - 1]}
@@ -497,11 +697,18 @@ def shrink(case):
 class _DS:
     """data source whose items identify themselves"""
 
-    def __init__(self, tag, n):
-        self.tag, self.n = tag, n
+    def __init__(self, tag, n, classes=None):
+        self.tag, self.n, self.classes = tag, n, classes
 
     def __len__(self):
         return self.n
+
+    # what ClassBalancedSampler / SemiSampler ask their dataset
+    def getall_class(self):
+        return list(self.classes)
+
+    def getdim_class(self):
+        return len({c for c in self.classes if c >= 0})
 
     def __getitem__(self, i):
         assert 0 <= i < self.n, (self.tag, i, self.n)
@@ -542,6 +749,7 @@ class _RecMain:
         self.data_source = _DS(0, raw["dsN"])
         self.eager = case.get("main_kind") == "eager"
         self.epoch = case.get("pre_epoch")
+        _apply_decoy(self, case.get("main_decoy"))
 
     def __len__(self):
         return self.n
@@ -558,6 +766,65 @@ class _RecMain:
 
     def _gen(self):
         yield from main_iter(self.case, self.epoch)
+
+
+def _apply_decoy(obj, decoy):
+    """misleading extra attributes (see gen_decoy); `dataset` only where the real data source is `data_source`,
+    which _get_data_source asks first"""
+    for k, v in (decoy or {}).items():
+        if k == "dataset":
+            if hasattr(obj, "data_source"):
+                obj.dataset = _DS(99, v)
+        else:
+            setattr(obj, k, v)
+
+
+def _kd_main(case, raw, world):
+    """the package's own rank-aware sampler (one rank of world_size) as main sampler, recording"""
+    def rec(cls):
+        class _RecKdMain(cls):
+            def set_epoch(self, e):
+                world.log.append(["E", int(e)])
+                super().set_epoch(e)
+
+            def __iter__(self):
+                world.log.append(["I", int(self.epoch)])
+                return super().__iter__()
+        return _RecKdMain
+
+    m = kd_make(case["kd"], _DS(0, raw["dsN"], kd_classes(case["kd"], raw["dsN"])), rec)
+    assert len(m) == raw["N"], ("len of the kappadata main sampler changed since the case was generated", len(m), raw["N"])
+    m.epoch = case.get("pre_epoch") or 0
+    return m
+
+
+def _kd_side(tag, sc, ds, world):
+    """the package's own rank-aware sampler as side sampler, recording like _Side"""
+    def rec(cls):
+        class _RecKdSide(cls):
+            p = 0
+
+            def set_epoch(self, e):
+                world.log.append(["S", tag - 1, int(e)])
+                super().set_epoch(e)
+
+            def __iter__(self):
+                it = super().__iter__()
+                first = True
+                for i in it:
+                    if first:
+                        world.plog.append([tag - 1, len(world.log), self.p])
+                        self.p += 1
+                        first = False
+                    yield int(i)
+                if first:
+                    world.plog.append([tag - 1, len(world.log), self.p])
+                    self.p += 1
+        return _RecKdSide
+
+    sm = kd_make(sc["kd"], ds, rec)
+    assert len(sm) == len(sc["idx"]), ("len of the kappadata side sampler changed since the case was generated",)
+    return sm
 
 
 def _torch_main(case, raw, world):
@@ -584,13 +851,15 @@ class _Side:
     starting at p0); lazy (generator) or eager (order fixed in __iter__) like the main sampler; it offers
     set_epoch and logs any call of it"""
 
-    def __init__(self, tag, sc, p0, world):
+    def __init__(self, tag, sc, p0, world, ds=None):
         # _get_data_source accepts either attribute name
+        ds = _DS(tag, sc["dslen"]) if ds is None else ds
         if tag % 2:
-            self.data_source = _DS(tag, sc["dslen"])
+            self.data_source = ds
         else:
-            self.dataset = _DS(tag, sc["dslen"])
+            self.dataset = ds
         self.tag, self.sc, self.p, self.world = tag, sc, p0, world
+        _apply_decoy(self, sc.get("decoy"))
 
     def __len__(self):
         return len(self.sc["idx"])
@@ -601,7 +870,7 @@ class _Side:
     def _begin(self):
         p = self.p
         self.p += 1
-        self.world.plog.append([self.tag - 1, len(self.world.log)])
+        self.world.plog.append([self.tag - 1, len(self.world.log), p])
         return side_iter(self.sc, p)
 
     def __iter__(self):
@@ -648,6 +917,9 @@ def scenario_ok(case, sc=None):
             built.add(st[1])
         elif st[0] == "iter" and st[1] not in built:
             return False
+        elif st[0] == "overlap" and (not st[1] or any(j not in built for j in st[1])
+                                     or any(not 0 <= pl[0] < len(st[1]) for pl in st[2])):
+            return False
     return True
 
 
@@ -660,9 +932,25 @@ class _Objects:
         self.case, self.start = case, start
         self.world = _World()
         raw = raw_args(case, start)
-        self.main = (_torch_main if case.get("main_kind") == "torch" else _RecMain)(case, raw, self.world)
+        mk = case.get("main_kind")
+        self.main = (_torch_main if mk == "torch" else _kd_main if mk == "kd" else _RecMain)(case, raw, self.world)
         pass0 = pass0 or [0] * len(case["sides"])
-        self.side_samplers = [_Side(i + 1, sc, pass0[i], self.world) for i, sc in enumerate(case["sides"])]
+        # ONE dataset object per config, unless the config shares the object of the main sampler / an earlier config
+        self.side_samplers = []
+        for i, sc in enumerate(case["sides"]):
+            sh = sc.get("share")
+            ds = None
+            if sh == "main":
+                ds = self.main.dataset if hasattr(self.main, "dataset") and mk in ("kd", "torch") else self.main.data_source
+            elif sh is not None:
+                o = self.side_samplers[sh]
+                ds = o.data_source if hasattr(o, "data_source") else o.dataset
+            if sc.get("kd") is not None:
+                sm = _kd_side(i + 1, sc, _DS(i + 1, sc["dslen"], kd_classes(sc["kd"], sc["dslen"])), self.world)
+                sm.p = pass0[i]
+            else:
+                sm = _Side(i + 1, sc, pass0[i], self.world, ds)
+            self.side_samplers.append(sm)
         self.cfgs = [InterleavedSamplerConfig(sampler=sm, every_n_epochs=rs["ene"], every_n_updates=rs["enu"],
                                               every_n_samples=rs["ens"], batch_size=rs["bs"])
                      for sm, rs in zip(self.side_samplers, raw["sides"])]
@@ -730,6 +1018,56 @@ class _Objects:
         return res, log, plog
 
 
+def _overlap(ob, objs, pulls):
+    """SIMULTANEOUSLY LIVE iterations: iterator li runs over InterleavedSampler object objs[li] (several may run
+    over the same object); pulls = [[li, count | None], ...] in the order the items are pulled (None = until the
+    iterator ends).  Every call the samplers receive is attributed to the iterator that was being advanced.
+    -> one history entry per started iterator"""
+    w = ob.world
+    n = len(objs)
+    its, logs, plogs = [None] * n, [[] for _ in objs], [[] for _ in objs]
+    res, ended, pulled = ["ok"] * n, [False] * n, [0] * n
+    p0, h0 = [None] * n, [None] * n
+    try:
+        for li, cnt in pulls:
+            if ended[li] or objs[li] not in ob.samplers:
+                continue
+            w.log, w.plog = logs[li], plogs[li]
+            if its[li] is None:
+                p0[li], h0[li] = ob.passes(), ob.held()
+                its[li] = iter(ob.samplers[objs[li]])
+            k = 0
+            try:
+                while cnt is None or k < cnt:
+                    full, idx = next(its[li])
+                    logs[li].append(["Y", bool(full), int(idx)])
+                    k += 1
+                    pulled[li] += 1
+                    if len(logs[li]) > MAX_EVENTS:
+                        res[li], ended[li] = "RUNAWAY", True
+                        break
+            except StopIteration:
+                ended[li] = True
+            except AssertionError:
+                res[li], ended[li] = "AssertionError", True
+    finally:
+        w.log, w.plog = w.outside, []
+        for it in its:
+            if it is not None and hasattr(it, "close"):
+                it.close()
+    out = []
+    ns = len(ob.side_samplers)
+    for li in range(n):
+        if its[li] is None:
+            continue
+        pseq = [[] for _ in range(ns)]
+        for ci, _pos, p in plogs[li]:
+            pseq[ci].append(p)
+        out.append({"obj": objs[li], "k": None if (ended[li] and res[li] == "ok") else pulled[li], "result": res[li],
+                    "log": logs[li], "pass0": p0[li], "held0": h0[li], "pseq": pseq, "live": li})
+    return out
+
+
 def build(case, log, start="case", pass0=None, plog=None):
     """fresh objects, the InterleavedSampler of the case itself; set_epoch / __iter__ calls go to `log`"""
     ob = _Objects(case, start, pass0)
@@ -787,6 +1125,8 @@ def run_stream(case, start="case", pass0=None):
         elif st[0] == "set_epoch":
             ob.world.log = ob.world.outside
             ob.main.set_epoch(st[1])
+        elif st[0] == "overlap":
+            hist.extend(_overlap(ob, st[1], st[2]))
         elif st[0] == "iter":
             if st[1] not in ob.samplers:
                 continue
@@ -837,13 +1177,30 @@ def passes_before(fresh, e0, n_sides):
     except ValueError:
         return None
     out = [0] * n_sides
-    for ci, pos in fresh.get("plog", []):
+    for ci, pos, *_ in fresh.get("plog", []):
         if pos <= k:
             out[ci] += 1
     return out
 
 
+CPU_GUARD = 20.0     # seconds of the process's own CPU time for all runs of one case (a real one takes milliseconds)
+
+
 def run_impl(case):
+    """_run_impl under the CPU-time guard of harness/samplers.py (a loop that never ends and never yields, e.g. an
+    epochs budget whose epoch counter stops advancing inside a sampler that is re-iterated without output, is not
+    seen by the event cap of the iteration loops)"""
+    from .samplers import Alarm, Runaway
+    import torch  # noqa: F401  (first imports are not on the guard's clock)
+    import kappadata.samplers  # noqa: F401
+    try:
+        with Alarm(cpu=CPU_GUARD, wall=240.0):
+            return _run_impl(case)
+    except Runaway:
+        return {"result": "RUNAWAY", "log": [], "hist": [], "cfg_mutations": [], "guard": "cpu/wall-clock guard fired"}
+
+
+def _run_impl(case):
     if case["start"] is None:
         obs = run_stream(case)
         obs.setdefault("pass0", [0] * len(case["sides"]))
@@ -854,6 +1211,8 @@ def run_impl(case):
     plain = {k: v for k, v in case.items() if k not in ("scenario", "others")}
     fresh = run_stream(plain, start=None)
     e0 = start_epoch_of(case)
+    if e0 == "NotImplementedError" and not case.get("mut"):
+        e0 = resume_point(case)     # a checkpoint the constructor may refuse; if it accepts it, the claim applies
     before = None
     if isinstance(e0, int) and fresh["result"] == "ok":
         before = passes_before(fresh, e0, len(case["sides"]))
@@ -920,15 +1279,87 @@ def start_epoch_of(case):
     return u // upe
 
 
-def spec_stream(case, e0, tag=False, pass0=None):
+def before_budget(case, e0):
+    """the property's domain: the run starts (epoch e0 boundary) strictly before every budget given; a checkpoint at
+    or past the budget never meets `update == updates` and is outside the claim"""
+    if e0 == 0:
+        return True
+    spe, upe = geometry(case)
+    bud = budgets(case)
+    return all(v is None or pos < v
+               for v, pos in ((bud["epochs"], e0), (bud["updates"], e0 * upe), (bud["samples"], e0 * spe)))
+
+
+def resume_point(case):
+    """the epoch boundary the case's checkpoint DENOTES in the uninterrupted run (None: it lies inside an epoch),
+    whether or not the constructor accepts that form of checkpoint: start_update u is the state after u updates,
+    start_sample s the state after s main samples.  With a short last batch (not drop_last, len % B != 0) an epoch
+    has len samples but ceil(len / B) updates, so s = k * len is the end of epoch k although s / B updates is not."""
+    st = case["start"]
+    spe, upe = geometry(case)
+    if st is None:
+        return 0
+    if st[0] == "epoch":
+        return st[1]
+    if st[0] == "update":
+        return st[1] // upe if st[1] % upe == 0 else None
+    return st[1] // spe if st[1] % spe == 0 else None
+
+
+def gen_boundary_case(rng):
+    """directed: geometries with a short last batch (drop_last=False, len % B != 0) and a start_sample /
+    start_update checkpoint at k * len samples / k * updates_per_epoch updates strictly before the budget.  The
+    constructor may refuse these (NotImplementedError); where it accepts one, the resumed run has to be the
+    uninterrupted run's suffix from epoch k"""
+    import math
+    for _ in range(200):
+        c = gen_bounded(rng)
+        n = c["N"]
+        if n < 2 or c.get("mut"):
+            continue
+        bs = [b for b in range(2, n + 1) if n % b]
+        if not bs:
+            continue
+        b = rng.choice(bs)
+        c["B"], c["drop_last"], c["D"] = b, False, None
+        spe, upe = geometry(c)
+        form = rng.choice(["sample", "sample", "sample", "update"])
+        k = rng.choice([1, 1, 2, 3])
+        if form == "sample":
+            k *= b // math.gcd(n, b)          # start_sample has to be a multiple of the batch size
+            c["start"] = ["sample", k * n]
+        else:
+            c["start"] = ["update", k * upe]
+        more = rng.choice([1, 1, 2, 3])
+        kind = rng.choice(["epochs", "updates", "samples"])
+        c["budget"] = [kind, {"epochs": k + more, "updates": (k + more) * upe - rng.choice([0, 0, 1]),
+                              "samples": (k + more) * spe - rng.choice([0, 0, 1, b])}[kind]]
+        for sc in c["sides"]:
+            if sc["ens"] is not None and rng.random() < 0.5:
+                sc["ens"] = max(1, rng.choice([b, spe, spe - 1, 2 * b, 3]))
+        if expected_events(c) <= GEN_EVENTS:
+            return c
+    return c
+
+
+def spec_stream(case, e0, tag=False, pass0=None, pseq=None):
     """the stream an uninterrupted run shows from the beginning of epoch e0 on (side samplers iterated pass0
-    times before); with tag=True every event carries 'M' (main) / config index"""
+    times before); with tag=True every event carries 'M' (main) / config index.  pseq (iterations that are live
+    at the same time as others): per config, which iteration of the shared side sampler object each pass of THIS
+    run was (recorded); after that the count carries on"""
     bud = budgets(case)
     pn = list(pass0 or [0] * len(case["sides"]))
+    pseq = [list(x) for x in pseq] if pseq is not None else None
+
+    def take(ci):
+        if pseq is not None and pseq[ci]:
+            pn[ci] = pseq[ci].pop(0)
+        pn[ci] += 1
+        return pn[ci] - 1
     if any(v == 0 for v in bud.values()):
         out = []
         for ci in range(len(case["sides"])):
-            out += [ev + [ci] if tag else ev for ev in side_pass(case, ci, pn[ci])]
+            out += [ev + [ci] if tag else ev for ev in side_pass(case, ci, take(ci))]
         return out
     spe, upe = geometry(case)
     out = []
@@ -952,8 +1383,7 @@ def spec_stream(case, e0, tag=False, pass0=None):
                        or (sc["enu"] is not None and update % sc["enu"] == 0)
                        or (sc["ens"] is not None and crossed(sc["ens"], prev, sample)))
                 if due:
-                    out += [ev + [ci] if tag else ev for ev in side_pass(case, ci, pn[ci])]
-                    pn[ci] += 1
+                    out += [ev + [ci] if tag else ev for ev in side_pass(case, ci, take(ci))]
             if ((bud["epochs"] is not None and epoch == bud["epochs"])
                     or (bud["updates"] is not None and update == bud["updates"])
                     or (bud["samples"] is not None and sample >= bud["samples"])):
@@ -987,15 +1417,23 @@ def expected_iteration(case, h):
         return None
     sel = None if j == 0 else case["others"][j - 1].get("sel")
     p0 = h["pass0"] if sel is None else [h["pass0"][i] for i in sel]
-    return oc, cut_after(spec_stream(oc, e0, pass0=p0), h["k"])
+    ps = h.get("pseq")
+    if ps is not None and sel is not None:
+        ps = [ps[i] for i in sel]
+    return oc, cut_after(spec_stream(oc, e0, pass0=p0, pseq=ps), h["k"])
 
 
 def history_violation(case, obs, proj=None, what="stream"):
     """every earlier iteration of the history, projected by proj(case_of_object, log), against the fresh model"""
     for n, h in enumerate(obs.get("hist") or []):
         name = f"history step: iteration of InterleavedSampler object #{h['obj']}" + \
-               (f" (abandoned after {h['k']} items)" if h["k"] is not None else "")
+               (f" (abandoned after {h['k']} items)" if h["k"] is not None else "") + \
+               (f" [live iterator #{h['live']} of several simultaneously live iterations: each owns its counters]"
+                if h.get("live") is not None else "")
         if ctor_expect(raw_args(obj_case(case, h["obj"]))) != "ok":
+            continue
+        e0h = start_epoch_of(obj_case(case, h["obj"]))
+        if isinstance(e0h, int) and not before_budget(obj_case(case, h["obj"]), e0h):
             continue
         if h["result"].startswith("ctor:"):
             return f"history: constructing object #{h['obj']} with valid arguments raised {h['result'][5:]}"
@@ -1038,8 +1476,18 @@ def ds_of(case, i):
     return None, None
 
 
+def ds_tag(case, d):
+    """the tag of the dataset OBJECT at position d of the concatenation (0 = main sampler's, d = config d-1's): a
+    config may draw from the object of the main sampler or of an earlier config"""
+    if d is None or d == 0:
+        return d
+    sh = case["sides"][d - 1].get("share")
+    return 0 if sh == "main" else d if sh is None else sh + 1
+
+
 def expected_loader_batches(case, stream):
-    """[collator tag, [[dataset, sample], ...]] per batch of `stream`"""
+    """[collator tag, [[tag of the dataset object, sample], ...]] per batch of `stream`; the collator is the one of
+    the CONFIG the batch was drawn for (configs sharing a dataset object keep their own collators)"""
     expb, cur = [], []
     for ev in stream:
         if ev[0] != "Y":
@@ -1047,7 +1495,7 @@ def expected_loader_batches(case, stream):
         cur.append(ev[2])
         if ev[1]:
             d = ds_of(case, cur[0])[0]
-            expb.append([d, [[d, ds_of(case, i)[1]] for i in cur]])
+            expb.append([d, [[ds_tag(case, d), ds_of(case, i)[1]] for i in cur]])
             cur = []
     return expb
 
@@ -1069,7 +1517,7 @@ Open Scope Z_scope.
 def coq_args(case, obs):
     raw = raw_args(case)
     calls = [0] * len(case["sides"])
-    for ci, _ in obs.get("plog", []):
+    for ci, *_ in obs.get("plog", []):
         calls[ci] += 1
     pass0 = obs.get("pass0") or [0] * len(case["sides"])
     sides = []
